@@ -482,6 +482,13 @@ def roundtrip_through_the_real_stack(desc):
     prefix = codec.coded_const_prefix(request_bytes) if trigger else codec.coded_const_prefix()
     H.check("C08:constant-prefix-is-a-prefix-of-the-pdu",
             H.And(len(pdu) >= len(prefix), H.eq(bytes(pdu)[:len(prefix)], bytes(prefix))))
+    if trigger:
+        # ... also when only the beginning of the request is known (the attribution machinery asks with prefixes)
+        for j in range(4):
+            if j < len(request_bytes):
+                part = codec.coded_const_prefix(bytes(request_bytes)[:j])
+                H.check("C08:constant-prefix-is-a-prefix-of-the-pdu",
+                        H.And(len(pdu) >= len(part), H.eq(bytes(pdu)[:len(part)], bytes(part))))
     static = codec.get_static_bit_length()
     if static is not None:
         H.check("C08:static-bit-length-is-the-size-of-the-pdu", 8 * len(pdu) == static)
